@@ -18,7 +18,8 @@ var c11Vals = []string{"a", "b", "A", "B", "f(A)"}
 var c11Templates = []string{"X", "X-Y", "f(X, Z)", "c", "Y"}
 var c11Quants = []string{"%s", "Y^%s", "Z^%s", "Y^Z^%s", "(Y-Z)^%s"}
 var c11Goals = []string{"t(X, Y, Z)", "(t(X, Y, Z) ; t(X, Z, Y))", "(t(X, Y, Z), X > 1)"}
-var c11Instances = []string{"S", "[]", "[_|_]", "[E]", "[E1, E2|T]"}
+// the last three: the instances argument is itself a free variable of the goal, the template variable, or holds one
+var c11Instances = []string{"S", "[]", "[_|_]", "[E]", "[E1, E2|T]", "Y", "X", "[Y|_]"}
 
 func c11Work(w *h.W) {
 	c11CountSweep(w)
@@ -96,6 +97,9 @@ func c11Work(w *h.W) {
 			"Y = a, bagof(X, t(X, Y, Z), S)",
 			"Z = Y, bagof(X, t(X, Y, Z), S)",
 			"Y = Q, bagof(X, Q^t(X, Y, Z), S)",
+			"S = Y, bagof(X, t(X, Y, Z), S)",
+			"Y = S, setof(X, t(X, Y, Z), S)",
+			"S = Z, bagof(X, Y^t(X, Y, Z), S), S = [_|_]",
 			"P = Y-Z, bagof(X, P^t(X, Y, Z), S)",
 			"findall(X, (t(X, Y, Z), findall(W, t(W, _, _), L), L = [_|_]), S)",
 			"findall(X-L, (t(X, _, _), findall(W-X, t(W, _, _), L)), S)",
@@ -205,7 +209,7 @@ var _ = ref.Nil
 func init() {
 	h.Register(&h.Check{
 		ID: "C11",
-		Rule: "all fact bases t(Index, Y, Z) of <= N facts whose witness arguments range over {a, b, A, B, f(A)} (clause-local variables: ground, partially bound, variant and non-variant witnesses, duplicates) x {findall, bagof, setof} x 5 templates x 3 goal shapes (plain, disjunctive, filtered) x every ^-quantification of {Y, Z} (incl. nested and compound) x 5 instance arguments (unbound, [], partial lists) + 12 nested / pre-bound / aliased-quantifier queries; (b) representations: all sequences of 2..3 (4) facts whose witness is one of 20 constructions of the same and of neighbouring lists (ASCII and non-ASCII) (literal, double-quoted string, atom_chars/atom_codes output, append/findall output, string tail, nested in a compound) x 7 bagof/setof/findall queries; (c) a sweep of the number of solutions 0..80 (200; quick: every 4th size and all sizes around 64 and 128) for 8 cyclic witness patterns (ground, variants of each other, neighbours in standard order, '$VAR'(N) and variable-like atoms as data next to variables) x 5 queries. Non-trivial = the reference yields an answer or error; distinct = program + query text.",
+		Rule: "all fact bases t(Index, Y, Z) of <= N facts whose witness arguments range over {a, b, A, B, f(A)} (clause-local variables: ground, partially bound, variant and non-variant witnesses, duplicates) x {findall, bagof, setof} x 5 templates x 3 goal shapes (plain, disjunctive, filtered) x every ^-quantification of {Y, Z} (incl. nested and compound) x 8 instance arguments (unbound, [], partial lists, a free variable of the goal, the template variable, a list holding a free variable) + 15 nested / pre-bound / aliased-quantifier queries; (b) representations: all sequences of 2..3 (4) facts whose witness is one of 20 constructions of the same and of neighbouring lists (ASCII and non-ASCII) (literal, double-quoted string, atom_chars/atom_codes output, append/findall output, string tail, nested in a compound) x 7 bagof/setof/findall queries; (c) a sweep of the number of solutions 0..80 (200; quick: every 4th size and all sizes around 64 and 128) for 8 cyclic witness patterns (ground, variants of each other, neighbours in standard order, '$VAR'(N) and variable-like atoms as data next to variables) x 5 queries. Non-trivial = the reference yields an answer or error; distinct = program + query text.",
 		Explanation: "state = one fact base in a fresh real interpreter; transition = one all-solutions query run to exhaustion; findall answers compared as sequences, bagof/setof answers (one per witness class) as a multiset since group order is unconstrained; the reference implements ISO 8.10 literally (free variables per 7.1.1.4, variant classes, witness unification, sort + dedupe for setof)",
 		Assumptions: []string{"reference ISO 8.10 algorithm in ref/solve (self-checked against the ISO examples)", "cases where a setof/3 result depends on the order of two distinct unbound variables are inconclusive"},
 		Work:        c11Work,
